@@ -810,11 +810,19 @@ func (P *Program) resolveTypeName(pkgPath, name string) types.Type {
 		}
 		return nil
 	}
-	if strings.HasPrefix(name, "chan ") {
-		if t := P.resolveTypeName(pkgPath, name[5:]); t != nil {
-			return types.NewChan(types.SendRecv, t)
+	for _, pre := range []string{"<-chan ", "chan<- ", "chan "} {
+		if strings.HasPrefix(name, pre) {
+			if t := P.resolveTypeName(pkgPath, name[len(pre):]); t != nil {
+				return types.NewChan(types.SendRecv, t)
+			}
+			return nil
 		}
-		return nil
+	}
+	if name == "struct{}" {
+		return types.NewStruct(nil, nil)
+	}
+	if name == "interface{}" || name == "any" {
+		return types.NewInterfaceType(nil, nil)
 	}
 	if i := strings.LastIndex(name, "."); i >= 0 {
 		return P.lookupNamedType(name[:i], name[i+1:])
